@@ -511,3 +511,23 @@ Theorem relocate_items_swallow :
       wp (relocate_items steps) s (fun _ s' => obs (hp s') = obs (hp s) /\ Inv (hp s')) (fun _ => False).
 Proof. exact relocate_items_spec. Qed.
 Print Assumptions relocate_items_swallow.
+
+(* BucketOpenN1 / BucketOpen8 / BucketOpen2N2 ::AddCrt: creator first, short hash + count byte afterwards (same shape as the
+   in-place LimP4 add); any all-or-nothing creator, every schedule: an exception leaves the bucket's metadata untouched *)
+Theorem open_bucket_add_guard :
+  forall creator fp P R s,
+    exec_spec (creator (regs (hp s) rItems, regs (hp s) rCount)) fp P R -> P (hp s) ->
+    wp (open_bucket_add creator) s
+       (fun _ s' => regs (hp s') rCount = S (regs (hp s) rCount) /\
+                    (forall r, r <> rCount -> regs (hp s') r = regs (hp s) r) /\
+                    agree (fun l => ~ fp l) (hp s) (hp s'))
+       (fun s' => heq (hp s) (hp s')).
+Proof. exact bucket_add_inplace_spec. Qed.
+Print Assumptions open_bucket_add_guard.
+
+(* the seeded ordering (short hash / state written before the creator) leaves a raw slot marked as occupied *)
+Theorem open_bucket_add_premature_refuted :
+  exists s', open_bucket_add_premature (creator_copy (0, 0)) (mkS bucket_demo_heap [true] []) = (Exn, s') /\
+             regs (hp s') rCount = 2 /\ mem (hp s') (1, 1) = Raw.
+Proof. exact bucket_add_inplace_premature_leaves_slot_marked. Qed.
+Print Assumptions open_bucket_add_premature_refuted.
